@@ -42,6 +42,7 @@ def main():
     sub = PKGDIR.get(pkg, ".")
     tests = re.findall(r"^func (Test\w+)\(", demo_src, re.M)
     runre = "^(" + "|".join(tests) + ")$"
+    race = ["-race"] if ("--race" in sys.argv or "-race" in demo_src.split("package ")[0]) else []
     wt = tempfile.mkdtemp(prefix="seedeval-", dir="/tmp")
     os.rmdir(wt)
     try:
@@ -49,7 +50,7 @@ def main():
         assert rc == 0, o
         dst = os.path.join(wt, sub, f"zz_seed_demo_{n}_test.go")
         shutil.copy(demo, dst)
-        rc, o = run(["go", "test", "-vet=off", "-count=1", "-run", runre, "./" + sub], wt, 400)
+        rc, o = run(["go", "test"] + race + ["-vet=off", "-count=1", "-run", runre, "./" + sub], wt, 600)
         out["demo_without_patch"] = "pass" if rc == 0 else "FAIL"
         out["demo_without_tail"] = o[-400:]
         rc, o = run(["git", "apply", "--whitespace=nowarn", patch], wt)
@@ -68,7 +69,7 @@ def main():
                     out["suite_fail_tail"] = o[-600:]
             out["suite_passes_with_patch"] = f"{ok}/2"
             shutil.copy(demo, dst)
-            rc, o = run(["go", "test", "-vet=off", "-count=1", "-run", runre, "./" + sub], wt, 400)
+            rc, o = run(["go", "test"] + race + ["-vet=off", "-count=1", "-run", runre, "./" + sub], wt, 600)
             out["demo_with_patch"] = "pass" if rc == 0 else "FAIL"
             out["demo_with_tail"] = o[-600:]
     finally:
